@@ -89,10 +89,8 @@ func runC08(r *engine.Run) {
 
 func orderPublish(r *engine.Run, commit *ssa.Function) {
 	const rule = "ORDER-publish"
-	commitRound := r.Fn(rule, pkgSC, "StateCache", "commitRound")
-	if commitRound == nil {
-		return
-	}
+	// the link may be published through commitRound or directly; both forms are recognised
+	commitRound, _ := r.P.Func(pkgSC, "StateCache", "commitRound")
 	var pubs []ssa.Instruction
 	var writes []ssa.Instruction
 	engine.Instrs(commit, func(in ssa.Instruction) {
@@ -100,9 +98,15 @@ func orderPublish(r *engine.Run, commit *ssa.Function) {
 		if !ok {
 			return
 		}
-		if c.Call.StaticCallee() == commitRound || lruCallOnField(c, "Add", "hashCache") {
+		if commitRound != nil && c.Call.StaticCallee() == commitRound {
 			pubs = append(pubs, in)
 			return
+		}
+		for _, m := range []string{"Add", "ContainsOrAdd", "PeekOrAdd"} {
+			if lruCallOnField(c, m, "hashCache") {
+				pubs = append(pubs, in)
+				return
+			}
 		}
 		if extCalleeIs(c, "hashicorp/golang-lru", "Cache", "Add") {
 			writes = append(writes, in)
